@@ -290,3 +290,25 @@ Proof.
     apply Forall_app. split; [|exact Hz2]. constructor; [|constructor].
     apply nz_app. split; [exact Hu|]. constructor; [discriminate|constructor].
 Qed.
+
+(* A first word without quote and space characters followed by a space splits off, and the rest of the line is split
+   as if it stood alone (behind the space the scanner is in its initial state).  Used by the harness where the file-local
+   splitter cannot be called: it starts the helper child through the public open("./ac " + line) and reads split(line)
+   from the child's argv[1..]. *)
+Lemma scan_plain_then_space w l : plain w ->
+  exists has, ref_scan false (w ++ ch_space :: l) = (w, has, Some (split_ref l)).
+Proof.
+  induction w as [|c t IH]; intro H.
+  - exists false. cbn [app ref_scan]. change (ch_space =? ch_quote) with false. rewrite Z.eqb_refl.
+    unfold split_ref. destruct (ref_scan false l) as [[w h] r]. reflexivity.
+  - inversion H as [|c' t' [Hq Hs] Ht]; subst.
+    apply Z.eqb_neq in Hq. apply Z.eqb_neq in Hs.
+    destruct (IH Ht) as [has E]. exists true.
+    cbn [app ref_scan]. rewrite Hq, Hs, E. reflexivity.
+Qed.
+
+Lemma split_ref_first_word w l : plain w -> split_ref (w ++ ch_space :: l) = w :: split_ref l.
+Proof.
+  intro H. destruct (scan_plain_then_space w l H) as [has E].
+  unfold split_ref at 1. rewrite E. reflexivity.
+Qed.
